@@ -106,7 +106,7 @@ def lookup_order_rule(F, rep):
                 rep.ok(rid, key, "existence test (order irrelevant)")
             else:
                 rep.violation(rid, key, "%s answers with `%s` over the context stack in stack order: an outer binding shadows an inner one" % (name, mc.get("method")), where)
-    rep.floor(rid, "first-hit scans over the scope stack", n_scan, 2)
+    rep.floor(rid, "first-hit scans over the scope stack", n_scan, 1)    # two on the pinned tree; one generic helper may serve both lookups
     # the context handed out / written by the single-context accessors is the top of the stack (the innermost one)
     BOTTOM = {"first", "first_mut", "front", "front_mut"}
     TOP = {"last", "last_mut", "back", "back_mut", "pop"}
